@@ -205,6 +205,8 @@ def judge_history(group, r, refs):
     for h, row in zip(group, r["histories"]):
         items += [("history %s, converter %d" % (h, i), cfg, d) for i, (cfg, d) in enumerate(zip(h, row))]
     items += [("converter %d (%s) re-run after all later ones were created" % (i, cfg), cfg, d) for i, (cfg, d) in enumerate(r.get("later", []))]
+    items += [("churn: user-supplied converter %d (%s), created after the previous ones were used and garbage-collected" % (i, cfg), cfg, d)
+              for i, (cfg, d) in enumerate(r.get("churn", []))]
     if r.get("hundred"):
         items.append(("the 100th converter", "fresh", r["hundred"]))
     for where, cfg, d in items:
@@ -338,7 +340,7 @@ def run(chk):
     with cf.ThreadPoolExecutor(14) as ex:
         f_h = [ex.submit(real, "history", {"histories": g, "recheck": 12}) for g in hgroups]
         long_hist = [rng.choices(CFGS, k=3) for _ in range(12)]
-        f_long = ex.submit(real, "history", {"histories": long_hist, "hundred": True, "recheck": 60})
+        f_long = ex.submit(real, "history", {"histories": long_hist, "hundred": True, "recheck": 60, "churn": 48})
         f_s = [ex.submit(real, "sched", sp) for sp in specs]
         f_st = [ex.submit(real, "stress", {"threads": 16, "battery": True, "battery_threads": 4}) for _ in range(reps)]
         hres = [f.result() for f in f_h]
@@ -461,7 +463,7 @@ def run(chk):
             explained = True
 
     if hist_bad:
-        chk.violation({"property": "C19", "kind": "history", "input": {"mode": "history", "spec": {"histories": hist_bad["histories"], "recheck": 12}},
+        chk.violation({"property": "C19", "kind": "history", "input": {"mode": "history", "spec": dict({"histories": hist_bad["histories"], "recheck": 12}, **({"churn": 48, "hundred": True, "recheck": 60} if str(hist_bad.get("where", "")).startswith(("churn", "the 100th")) else {}))},
                        "expected": hist_bad["expected"], "observed_impl": {k: v for k, v in hist_bad.items() if k not in ("expected", "histories")},
                        "module_state_written_by_register_hooks": [w for w in (info or {}).get("writes", []) if w["kind"] == "WGlobal"],
                        "broken": [b[:2] for b in broken], "how_to_replay": how})
